@@ -84,6 +84,13 @@ fn run_path(job: &str, path: &[usize], local: &mut Local, check_leaks_now: bool,
                     }
                 }
                 if out.is_ok() {
+                    // and every string argument with bytes that are not UTF-8
+                    match crate::model::capi::bad_string_sweep() {
+                        Ok(n) => total += n,
+                        Err(e) => out = Err(e),
+                    }
+                }
+                if out.is_ok() {
                     // the null calls must have left every handle unchanged
                     out = real.compare(&model).map(|_| total);
                 }
